@@ -1,5 +1,6 @@
 import WnVerif.Drv.DocJson
 import WnVerif.Model.Lmf
+import WnVerif.Model.LmfScan
 open Lean
 namespace WnVerif.Drv
 open WnVerif.Lmf
@@ -38,5 +39,17 @@ def opRoundtrip (j : Json) : Json :=
   match loadTree r.version (dumpTree r) with
   | .ok r' => jObj [("ok", Json.bool true), ("equal", Json.bool ((eResource r').compress == (eResource r).compress))]
   | .error e => jObj [("ok", Json.bool false), ("error", jStr e)]
+
+def opHeader (j : Json) : Json :=
+  let l1 := (getStr j "l1").toList
+  let l2 := (getStr j "l2").toList
+  jObj [("version", jOptStr (LmfScan.readHeader l1 l2)), ("is_lmf", Json.bool (LmfScan.isLmf l1 l2))]
+
+def opScan (j : Json) : Json :=
+  match LmfScan.scanLexicons (getStr j "text").toList with
+  | none => jStr "error"
+  | some infos => jArr (infos.map fun i =>
+      jObj [("id", jStr i.id), ("version", jStr i.version), ("label", jOptStr i.label),
+            ("extends", match i.ext with | some (a, b) => jArr [jStr a, jStr b] | none => Json.null)])
 
 end WnVerif.Drv
